@@ -191,8 +191,8 @@ func TestCheck(t *testing.T) {
 		n    int
 	}
 	const chunk = 250
-	for _, s := range []src{{"dense", gen.Dense, r.N(400000, 3000000)}, {"sparse", gen.Sparse, r.N(400000, 3000000)}, {"adv", gen.Adv, r.N(300000, 2000000)},
-		{"castle", gen.Castle, r.N(100000, 800000)}, {"knbk", knbk, r.N(200000, 1600000)}, {"minor", minor, r.N(200000, 1600000)}} {
+	for _, s := range []src{{"dense", gen.Dense, r.N(400000, 24000000)}, {"sparse", gen.Sparse, r.N(400000, 24000000)}, {"adv", gen.Adv, r.N(300000, 16000000)},
+		{"castle", gen.Castle, r.N(100000, 6400000)}, {"knbk", knbk, r.N(200000, 12800000)}, {"minor", minor, r.N(200000, 12800000)}} {
 		ev.Parallel(s.n/chunk, func(wk, i int) {
 			lc := lcs[wk]
 			rng := r.RNG("c17-"+s.name, i)
@@ -214,7 +214,7 @@ func TestCheck(t *testing.T) {
 	}
 	// hash history / interleaved evaluations: boards reached by moves vs freshly loaded
 	corpus := gen.Corpus()
-	games := r.N(4000, 30000)
+	games := r.N(4000, 240000)
 	ev.Parallel(games, func(wk, i int) {
 		lc := lcs[wk]
 		rng := r.RNG("c17-play", i)
@@ -239,7 +239,7 @@ func TestCheck(t *testing.T) {
 		r.Merge(lc)
 	})
 	// UCI `eval`
-	nu := r.N(1500, 10000)
+	nu := r.N(1500, 80000)
 	ev.Parallel(nu, func(wk, i int) {
 		rng := r.RNG("c17-uci", i)
 		p := gen.AnyPos(rng)
